@@ -82,6 +82,7 @@ const std::vector<std::string> UNAMES  = {"e1", "-en", "ones/sqrt(n)", "(+1,-1,.
 const std::vector<double>      EPSS    = {1e-3, 1e-5, 1e-8};
 const std::vector<std::string> BSOLVERS = {"rqb", "fpba1", "fpba2"};
 const std::vector<std::string> PSETS    = {"default", "cutting-plane(m4=100: frequent cutting-plane steps)",
+                                           "prox-small(miu0_range=(1e-3,2e-3): long first steps, many null steps, large bundles)",
                                            "csearch-alt(m1m2=(0.1,0.5),m3=0.5,m4=0.5,interpol=0.5,extrapol=2)",
                                            "prox-alt(miu0_range=(1,1e3),min_dot_nuv=1e-6)"};
 constexpr double               RADIUS  = 4.0;  ///< ||x0 - x*||_2
@@ -389,13 +390,17 @@ rsolver_t configure(const case_t& c)
             }
             else if (c.pset == 2)
             {
+                solver->parameter(p + "::prox::miu0_range") = std::make_tuple(1e-3, 2e-3);
+            }
+            else if (c.pset == 3)
+            {
                 solver->parameter(p + "::csearch::m1m2")     = std::make_tuple(0.1, 0.5);
                 solver->parameter(p + "::csearch::m3")       = 0.5;
                 solver->parameter(p + "::csearch::m4")       = 0.5;
                 solver->parameter(p + "::csearch::interpol") = 0.5;
                 solver->parameter(p + "::csearch::extrapol") = 2.0;
             }
-            else if (c.pset == 3)
+            else if (c.pset == 4)
             {
                 solver->parameter(p + "::prox::miu0_range")  = std::make_tuple(1.0, 1e3);
                 solver->parameter(p + "::prox::min_dot_nuv") = 1e-6;
@@ -766,7 +771,7 @@ int main(int argc, char** argv)
 
     // tier-dependent alphabets (overridable for experiments)
     const auto ns     = parse_list(args.get("ns", args.thorough() ? "1,2,3,4,6,8" : "1,2,3,6"));
-    const auto bsizes = parse_list(args.get("bsizes", args.thorough() ? "2,3,4,5,20,100" : "2,3,4,5,20"));
+    const auto bsizes = parse_list(args.get("bsizes", "2,3,4,5,20,100"));
     const auto mevals = parse_list(args.get("max_evals", ell ? "100,2000,20000" : (args.thorough() ? "100,2000,20000" : "100,2000")));
     // (epsilon, max_evals) pairs. Bundle stage: the 20000-evaluation budget is combined with epsilon = 1e-8 only (every
     // bundle iteration solves a QP of the bundle size; a run that has not converged at 1e-3 / 1e-5 within 2000
@@ -787,7 +792,7 @@ int main(int argc, char** argv)
             }
         }
     }
-    const auto npsets = static_cast<uint64_t>(args.geti("psets", args.thorough() ? 4 : 2));
+    const auto npsets = static_cast<uint64_t>(args.geti("psets", args.thorough() ? 5 : 3));
     const bool trace  = std::getenv("C03_TRACE") != nullptr;
 
     struct sigaction sa{};
